@@ -25,6 +25,8 @@ import (
 //                 clock, current/previous secret, rotation with a shared parser history)
 //   cs_test.go    handler.ContentSecurityHandler (strict / non-strict; timestamp tolerance
 //                 against the virtual clock; encrypted bodies) and handler.CryptionHandler
+//   engine_test.go the same gates as the REST engine wires them for 1-4 route groups on one server
+//                 (rest.WithJwt / WithJwtTransition / WithSignature, Server.Use, callbacks)
 //
 // Every verdict is computed by an independent verifier from the request *as sent* (final
 // header strings, url, body bytes) and the virtual instants of the call; the way a request
@@ -37,7 +39,8 @@ const rsaBits = 1024
 // a verdict (verdicts only depend on whether a ciphertext decrypts under the key it was
 // produced for).
 var (
-	rsaKeys    [3]*rsa.PrivateKey    // 0,1: configurable on the server; 2: never configured
+	rsaKeys    [5]*rsa.PrivateKey    // 0,1 (and 3,4 in engine mode): configurable on a server; 2: never configured
+	keyPEM     [5][]byte             // PKCS#1 PEM of each key (written to key files in engine mode)
 	decrypters [2]codec.RsaDecrypter // real go-zero decrypters for keys 0,1
 )
 
@@ -58,6 +61,7 @@ func init() {
 			panic(err)
 		}
 		rsaKeys[i] = k
+		keyPEM[i] = pem.EncodeToMemory(&pem.Block{Type: "RSA PRIVATE KEY", Bytes: x509.MarshalPKCS1PrivateKey(k)})
 	}
 	for i := range decrypters {
 		f, err := os.CreateTemp("", "verif-c18-key-*.pem")
@@ -65,7 +69,7 @@ func init() {
 			panic(err)
 		}
 		name := f.Name()
-		pem.Encode(f, &pem.Block{Type: "RSA PRIVATE KEY", Bytes: x509.MarshalPKCS1PrivateKey(rsaKeys[i])})
+		f.Write(keyPEM[i])
 		f.Close()
 		d, err := codec.NewRsaDecrypter(name)
 		os.Remove(name)
@@ -191,15 +195,17 @@ func short(b []byte) string {
 }
 
 func body(r *simrt.Run, tier string) {
-	switch weighted(r.Tape, 3, 2, 3, 1) {
+	switch weighted(r.Tape, 3, 2, 3, 1, 4) {
 	case 0:
 		jwtAuthorize(r, tier)
 	case 1:
 		jwtRotation(r, tier)
 	case 2:
 		contentSecurity(r, tier)
-	default:
+	case 3:
 		cryption(r, tier)
+	default:
+		engineWiring(r, tier)
 	}
 }
 
